@@ -218,7 +218,15 @@ pub fn run(_ctx: &mut WorkerCtx, job: &Value) -> JobOutput {
         .as_array()
         .map(|a| a.iter().map(|t| t.as_array().cloned().unwrap_or_default()).collect())
         .unwrap_or_default();
-    let strategy: Strategy = serde_json::from_value(job["sched"].clone()).unwrap_or(Strategy::Random);
+    let strategy: Strategy = match serde_json::from_value(job["sched"].clone()) {
+        Ok(s) => s,
+        Err(e) => {
+            return JobOutput {
+                result: json!({"class":"harness_error","detail":format!("bad schedule descriptor: {}", e)}),
+                tainted: false,
+            }
+        }
+    };
     let sched_seed = job["sched_seed"].as_u64().unwrap_or(0);
     let fuel = job["fuel"].as_i64().unwrap_or(200_000_000);
     let results: Arc<Mutex<Vec<Vec<Value>>>> = Arc::new(Mutex::new(vec![vec![]; threads.len()]));
